@@ -8,6 +8,7 @@ import AstGrepVerif.Model.Template
 import AstGrepVerif.Lemmas.MetaVar
 import AstGrepVerif.Lemmas.Template
 import AstGrepVerif.Generated.Tables
+import AstGrepVerif.Lemmas.AnB
 
 set_option linter.unusedSimpArgs false
 set_option linter.unusedVariables false
@@ -161,6 +162,117 @@ theorem isMatched_no_overflow (a b : Int) (i : Nat)
     have h2 : ((i : Int) + 1 - b == -2147483648) = false := by
       simp; omega
     simp [h1, h2]
+
+/-- **The current code** (`is_matched` computed in `i64`, FIX_C11_3): for `i32` coefficients —
+`parse_an_b` accepts no others, `parseAnBChecked_in_i32` — and any index with
+`index + 1 + 2^31 < 2^63` (a node cannot have that many children in a 64-bit address space) the
+literal `i64` computation never overflows and is the mathematical function.  This is what lets
+the evaluator model (`Model/Rule.lean`) use the total `isMatched`.  (The bound `index + 1 < 2^63`
+alone is not enough: `index - offset` leaves `i64` for `offset = i32::MIN` and an index within
+`2^31` of `i64::MAX`, `isMatchedI64_bound_example`.) -/
+theorem isMatchedI64_exact (a b : Int) (i : Nat) (ha : inI32 a = true) (hb : inI32 b = true)
+    (hi : i + 1 + 2 ^ 31 < 2 ^ 63) : isMatchedI64 a b i = some (isMatched a b i) := by
+  simp only [inI32, i32Min, i32Max, Bool.and_eq_true] at ha hb
+  have ha1 : (-2147483648 : Int) ≤ a := of_decide_eq_true ha.1
+  have ha2 : a ≤ 2147483647 := of_decide_eq_true ha.2
+  have hb1 : (-2147483648 : Int) ≤ b := of_decide_eq_true hb.1
+  have hb2 : b ≤ 2147483647 := of_decide_eq_true hb.2
+  unfold isMatchedI64 isMatched inI64 i64Min i64Max
+  have hidx : Int.bmod (i : Int) (2 ^ 64) = (i : Int) := by
+    apply Int.bmod_eq_of_le <;> omega
+  simp only [hidx]
+  have h0 : (decide (-9223372036854775808 ≤ (i : Int) + 1) &&
+      decide ((i : Int) + 1 ≤ 9223372036854775807)) = true := by
+    simp; omega
+  simp only [h0, Bool.not_true, Bool.false_eq_true, ↓reduceIte]
+  by_cases hz : a = 0
+  · simp [hz]
+  · have hbeq : (a == 0) = false := by simpa using hz
+    simp only [hbeq, Bool.false_eq_true, ↓reduceIte]
+    have h1 : (decide (-9223372036854775808 ≤ (i : Int) + 1 - b) &&
+        decide ((i : Int) + 1 - b ≤ 9223372036854775807)) = true := by
+      simp; omega
+    have h2 : ((i : Int) + 1 - b == -9223372036854775808) = false := by
+      simp; omega
+    simp [h1, h2]
+
+/-- a convenient special case: any index below `2^62` -/
+theorem isMatchedI64_exact' (a b : Int) (i : Nat) (ha : inI32 a = true) (hb : inI32 b = true)
+    (hi : i < 2 ^ 62) : isMatchedI64 a b i = some (isMatched a b i) :=
+  isMatchedI64_exact a b i ha hb (by omega)
+
+/-- the index bound cannot be relaxed to `index + 1 < 2^63`: `index - offset` overflows `i64` -/
+theorem isMatchedI64_bound_example :
+    inI32 (-2147483648) = true ∧ 9223372036854775806 + 1 < 2 ^ 63 ∧
+    isMatchedI64 1 (-2147483648) 9223372036854775806 = none := by decide
+
+/-- so `anb_iff` is a statement about the current code: the `i64` computation selects index `i`
+iff `i + 1 = A·n + B` for some `n ≥ 0` -/
+theorem anb_iff_i64 (a b : Int) (i : Nat) (ha : inI32 a = true) (hb : inI32 b = true)
+    (hi : i + 1 + 2 ^ 31 < 2 ^ 63) :
+    isMatchedI64 a b i = some true ↔ ∃ n : Nat, (i : Int) + 1 = a * n + b := by
+  rw [isMatchedI64_exact a b i ha hb hi, ← anb_iff]
+  simp
+
+/-- the repaired `is_matched` of the model is the mathematical function -/
+theorem isMatchedChecked_eq (a b : Int) (i : Nat) : isMatchedChecked a b i = isMatched a b i := rfl
+
+/-! ### `parse_an_b`: the current code (checked arithmetic) against the pinned one -/
+
+/-- the repaired parser is the pinned one except that a number leaving the `i32` range is
+`InvalidSyntax` instead of an overflow (panic / wrap) -/
+theorem parseAnBChecked_spec (input : List Char) :
+    parseAnBChecked input =
+      match parseAnB input with
+      | .error .overflow => .error .invalidSyntax
+      | r => r := rfl
+
+/-- same accepted inputs, same values -/
+theorem parseAnBChecked_ok_iff (input : List Char) (v : Int × Int) :
+    parseAnBChecked input = .ok v ↔ parseAnB input = .ok v := by
+  unfold parseAnBChecked
+  cases h : parseAnB input with
+  | ok w => simp
+  | error e => cases e <;> simp
+
+/-- same errors, except overflow ↦ `InvalidSyntax` -/
+theorem parseAnBChecked_error (input : List Char) (e : AnBError) :
+    parseAnBChecked input = .error e ↔
+      (parseAnB input = .error e ∧ e ≠ .overflow) ∨
+      (e = .invalidSyntax ∧ parseAnB input = .error .overflow) := by
+  unfold parseAnBChecked
+  cases h : parseAnB input with
+  | ok w => simp
+  | error e' => cases e' <;> cases e <;> simp
+
+/-- the repaired parser never reports an overflow -/
+theorem parseAnBChecked_no_overflow (input : List Char) :
+    parseAnBChecked input ≠ .error .overflow := by
+  intro h
+  rcases (parseAnBChecked_error input .overflow).1 h with ⟨_, h2⟩ | ⟨h1, _⟩
+  · exact h2 rfl
+  · cases h1
+
+/-- accepted coefficients fit `i32` (proof in `Lemmas/AnB.lean`; C11 states it as
+`parseAnB_in_i32`) — hence `isMatchedI64_exact` applies to every loaded `nthChild` -/
+theorem parseAnBChecked_in_i32 (input : List Char) (a b : Int)
+    (h : parseAnBChecked input = .ok (a, b)) : inI32 a = true ∧ inI32 b = true :=
+  AGV.parseAnBChecked_in_i32 input a b h
+
+/-- end to end: a position the current parser accepts is tested by the current `is_matched`
+exactly as the formula says -/
+theorem parsed_position_exact (input : List Char) (a b : Int) (i : Nat)
+    (h : parseAnBChecked input = .ok (a, b)) (hi : i + 1 + 2 ^ 31 < 2 ^ 63) :
+    isMatchedI64 a b i = some (isMatched a b i) :=
+  let ⟨ha, hb⟩ := parseAnBChecked_in_i32 input a b h
+  isMatchedI64_exact a b i ha hb hi
+
+example : (match parseAnBChecked ['2', 'n', '+', '1'] with
+    | .ok v => v == (2, 1) | .error _ => false) = true := by decide
+example : isMatchedI64 2 1 4 = some true ∧ isMatchedI64 2 1 3 = some false := by decide
+/-- the operands the pinned `i32` computation overflowed on (C11) -/
+example : isMatchedI64 1 (-2147483647) 1 = some true ∧ isMatchedI32 1 (-2147483647) 1 = none := by
+  decide
 
 /-! ## substring -/
 
